@@ -1,5 +1,6 @@
 import CanVerif.Model.DbcParse
 import CanVerif.Lemmas.ScanInv
+import Lean.Elab.Tactic
 /-! The parser model never reaches its panic site: the scanner invariant (offsets inside the source, identifier tokens
 non-empty) is kept by every parser operation, and the look-ahead token is always well formed. -/
 open Std.Do
@@ -74,8 +75,15 @@ theorem StInv_init (data : List UInt8) : StInv (Sc.init data) := by
   omega
 
 /-- the parser state invariant: scanner invariant, well-formed look-ahead token -/
-def PSInv (st : PS) : Prop := StInv st.sc ∧ (st.hasLA = true → TokOk st.la)
+def PSInv (st : PS) : Prop := StInv st.sc ∧ (st.hasLA = true → TokOk st.la ∧ st.la.pos.offset ≤ E st.sc)
 abbrev noPanic : PErr → Prop := fun e => ∀ s, e ≠ .panic s
+
+/-- lower bound of every position the parser can still produce: the start of the scanner's look-ahead character, or the
+look-ahead token if it starts earlier -/
+def lb (st : PS) : Nat := if st.hasLA then min (E st.sc) st.la.pos.offset else E st.sc
+
+/-- an error is not a panic, and a parse error is positioned at or after `b` -/
+def ErrOk (b : Nat) (e : PErr) : Prop := noPanic e ∧ ∀ p r, e = .parse p r → b ≤ p.offset
 
 theorem liftSc_run' {α : Type} (f : Sc → Except ScanErr (α × Sc)) (st : PS) :
     (liftSc f).run st = match f st.sc with
@@ -87,349 +95,412 @@ theorem liftSc_run' {α : Type} (f : Sc → Except ScanErr (α × Sc)) (st : PS)
   | ok p => obtain ⟨a, sc'⟩ := p; rfl
   | error e => cases hf : e.fuel <;> simp [hf] <;> rfl
 
-theorem liftSc_ispec {α : Type} (f : Sc → Except ScanErr (α × Sc)) (Q : α → Prop)
-    (hf : ∀ s, StInv s → ⦃⌜True⌝⦄ f s ⦃post⟨fun r => ⌜StInv r.2 ∧ Q r.1⌝, fun _ => ⌜True⌝⟩⦄) :
-    ⦃fun st => ⌜PSInv st⌝⦄ liftSc f ⦃post⟨fun r st' => ⌜PSInv st' ∧ Q r⌝, fun e => ⌜noPanic e⌝⟩⦄ := by
-  apply triple_of_st
-  intro st h
+theorem lb_le_E (st : PS) : lb st ≤ E st.sc := by unfold lb; split <;> omega
+
+/-- lifting a scanner step: invariant kept, positions only move forward, errors positioned at or after the bound -/
+theorem liftSc_core {α : Type} (f : Sc → Except ScanErr (α × Sc)) (Q : α → Sc → Prop) (n : Nat) (st : PS)
+    (h : PSInv st) (hn : n ≤ lb st)
+    (hok : ∀ r, f st.sc = .ok r → StInv r.2 ∧ E st.sc ≤ E r.2 ∧ (E st.sc ≤ n → False ∨ True) ∧ Q r.1 r.2)
+    (herr : ∀ e, f st.sc = .error e → E st.sc ≤ e.pos.offset) :
+    match (liftSc f).run st with
+    | .ok (a, st') => PSInv st' ∧ n ≤ lb st' ∧ Q a st'.sc
+    | .error e => ErrOk n e := by
   rw [liftSc_run']
+  have hle := lb_le_E st
   cases hs : f st.sc with
-  | error e => intro s; cases e.fuel <;> simp
+  | error e =>
+    have := herr e hs
+    refine ⟨fun s => by cases e.fuel <;> simp, fun p r hp => ?_⟩
+    cases hfu : e.fuel <;> simp [hfu] at hp
+    obtain ⟨rfl, _⟩ := hp
+    omega
   | ok p =>
     obtain ⟨a, sc'⟩ := p
-    have := exc_ok_of_triple _ _ _ (hf st.sc h.1) _ hs
-    exact ⟨⟨this.1, h.2⟩, this.2⟩
+    have := hok _ hs
+    have h2 := this.2.1
+    refine ⟨⟨this.1, fun hl => ⟨(h.2 hl).1, Nat.le_trans (h.2 hl).2 h2⟩⟩, ?_, this.2.2.2⟩
+    simp only at h2
+    unfold lb at hn ⊢
+    simp only
+    split at hn <;> simp_all <;> omega
 
-@[spec] theorem liftScan_ispec :
-    ⦃fun st => ⌜PSInv st⌝⦄ liftSc Sc.scan ⦃post⟨fun r st' => ⌜PSInv st' ∧ TokOk r⌝, fun e => ⌜noPanic e⌝⟩⦄ := by
-  apply liftSc_ispec Sc.scan TokOk
-  intro s hs
-  have := scan_ispec s hs
-  apply triple_of_exc
-  cases h : s.scan with
-  | ok r => have := exc_ok_of_triple _ _ _ this _ h; exact ⟨this.1, this.2.2⟩
-  | error e => trivial
+@[spec] theorem liftScan_ispec (n : Nat) :
+    ⦃fun st => ⌜PSInv st ∧ n ≤ lb st⌝⦄ liftSc Sc.scan
+    ⦃post⟨fun r st' => ⌜PSInv st' ∧ n ≤ lb st' ∧ TokOk r ∧ n ≤ r.pos.offset ∧ r.pos.offset ≤ E st'.sc⌝, fun e => ⌜ErrOk (n) e⌝⟩⦄ := by
+  apply triple_of_st
+  intro st ⟨h, hn⟩
+  have sp := scan_ispec st.sc h.1
+  have hle := lb_le_E st
+  have := liftSc_core Sc.scan (fun t sc' => TokOk t ∧ n ≤ t.pos.offset ∧ t.pos.offset ≤ E sc') n st h hn
+    (fun r hr => by
+      have := exc_ok_of_triple _ _ _ sp _ hr
+      exact ⟨this.1, this.2.2.2.2.1, fun _ => Or.inr trivial, this.2.2.1, by omega, this.2.2.2.2.2⟩)
+    (fun e he => exc_err_of_triple _ _ _ sp _ he)
+  revert this
+  cases (liftSc Sc.scan).run st with
+  | ok p => obtain ⟨a, st'⟩ := p; exact fun h => ⟨h.1, h.2.1, h.2.2.1, h.2.2.2.1, h.2.2.2.2⟩
+  | error e => exact id
 
-@[spec] theorem liftNextRune_ispec :
-    ⦃fun st => ⌜PSInv st⌝⦄ liftSc Sc.nextRune ⦃post⟨fun _ st' => ⌜PSInv st' ∧ True⌝, fun e => ⌜noPanic e⌝⟩⦄ := by
-  apply liftSc_ispec Sc.nextRune (fun _ => True)
-  intro s hs
-  have := nextRune_ispec s hs
-  apply triple_of_exc
-  cases h : s.nextRune with
-  | ok r => have := exc_ok_of_triple _ _ _ this _ h; exact ⟨this.1, trivial⟩
-  | error e => trivial
+@[spec] theorem liftNextRune_ispec (n : Nat) :
+    ⦃fun st => ⌜PSInv st ∧ n ≤ lb st⌝⦄ liftSc Sc.nextRune
+    ⦃post⟨fun _ st' => ⌜PSInv st' ∧ n ≤ lb st'⌝, fun e => ⌜ErrOk (n) e⌝⟩⦄ := by
+  apply triple_of_st
+  intro st ⟨h, hn⟩
+  have sp := nextRune_ispec st.sc h.1
+  have := liftSc_core Sc.nextRune (fun _ _ => True) n st h hn
+    (fun r hr => by
+      have := exc_ok_of_triple _ _ _ sp _ hr
+      exact ⟨this.1, this.2.2, fun _ => Or.inr trivial, trivial⟩)
+    (fun e he => exc_err_of_triple _ _ _ sp _ he)
+  revert this
+  cases (liftSc Sc.nextRune).run st with
+  | ok p => obtain ⟨a, st'⟩ := p; exact fun h => ⟨h.1, h.2.1⟩
+  | error e => exact id
 
-@[spec] theorem liftPeek_ispec :
-    ⦃fun st => ⌜PSInv st⌝⦄ liftSc Sc.peek ⦃post⟨fun _ st' => ⌜PSInv st' ∧ True⌝, fun e => ⌜noPanic e⌝⟩⦄ := by
-  apply liftSc_ispec Sc.peek (fun _ => True)
-  intro s hs
-  have := peek_ispec s hs
-  apply triple_of_exc
-  cases h : s.peek with
-  | ok r =>
-    have := exc_ok_of_triple _ _ _ this _ h
-    refine ⟨?_, trivial⟩
-    have e : r.2.ch = r.1 := this.2.1
-    right; rw [e]; exact this.1
-  | error e => trivial
+@[spec] theorem liftPeek_ispec (n : Nat) :
+    ⦃fun st => ⌜PSInv st ∧ n ≤ lb st⌝⦄ liftSc Sc.peek
+    ⦃post⟨fun _ st' => ⌜PSInv st' ∧ n ≤ lb st'⌝, fun e => ⌜ErrOk (n) e⌝⟩⦄ := by
+  apply triple_of_st
+  intro st ⟨h, hn⟩
+  have sp := peek_ispec st.sc h.1
+  have := liftSc_core Sc.peek (fun _ _ => True) n st h hn
+    (fun r hr => by
+      have := exc_ok_of_triple _ _ _ sp _ hr
+      have e : r.2.ch = r.1 := this.2.1
+      exact ⟨Or.inr (by rw [e]; exact this.1), this.2.2.2, fun _ => Or.inr trivial, trivial⟩)
+    (fun e he => exc_err_of_triple _ _ _ sp _ he)
+  revert this
+  cases (liftSc Sc.peek).run st with
+  | ok p => obtain ⟨a, st'⟩ := p; exact fun h => ⟨h.1, h.2.1⟩
+  | error e => exact id
 
+/-- `failf`: the error it raises, exactly -/
 @[spec] theorem failf_ispec {α : Type} (pos : Pos) (r : String) :
-    ⦃⌜True⌝⦄ (failf pos r : P α) ⦃post⟨fun _ _ => ⌜False⌝, fun e => ⌜noPanic e⌝⟩⦄ := by
+    ⦃⌜True⌝⦄ (failf pos r : P α) ⦃post⟨fun _ _ => ⌜False⌝, fun e => ⌜e = .parse pos r⌝⟩⦄ := by
   apply triple_of_st
   intro s _
-  show noPanic (.parse pos r)
-  intro s; simp
+  rfl
 
 /-- the panic site needs a contradiction -/
 @[spec] theorem panicAt_ispec {α : Type} (site : String) :
-    ⦃⌜False⌝⦄ (panicAt site : P α) ⦃post⟨fun _ _ => ⌜False⌝, fun e => ⌜noPanic e⌝⟩⦄ := by
+    ⦃⌜False⌝⦄ (panicAt site : P α) ⦃post⟨fun _ _ => ⌜False⌝, fun e => ⌜False⌝⟩⦄ := by
   apply triple_of_st
   intro s h
   exact absurd h id
 
-theorem outOfFuel_ispec {α : Type} (x : P α) (h : x = throw .fuel) :
-    ⦃fun st => ⌜PSInv st⌝⦄ x ⦃post⟨fun _ st' => ⌜PSInv st'⌝, fun e => ⌜noPanic e⌝⟩⦄ := by
+theorem outOfFuel_ispec {α : Type} (x : P α) (h : x = throw .fuel) (n : Nat) :
+    ⦃fun st => ⌜PSInv st ∧ n ≤ lb st⌝⦄ x ⦃post⟨fun _ st' => ⌜PSInv st' ∧ n ≤ lb st'⌝, fun e => ⌜ErrOk (n) e⌝⟩⦄ := by
   subst h
   apply triple_of_st
   intro s _
-  show noPanic .fuel
-  intro s; simp
+  show ErrOk (n) .fuel
+  exact ⟨fun s => by simp, fun p r h => by cases h⟩
 
 theorem StInv_ws {s : Sc} (h : StInv s) (w : Nat) : StInv { s with ws := w } := by
   rcases h with ⟨a, b, c, d⟩ | h
   · exact Or.inl ⟨a, b, c, d⟩
   · exact Or.inr ⟨h.size, h.last, h.look, h.ge, h.wf⟩
+@[simp] theorem E_ws (s : Sc) (w : Nat) : E { s with ws := w } = E s := rfl
 
-macro "close_pinv" : tactic => `(tactic| all_goals first
+/-- ghost bounds of the specifications applied inside a proof are the `lb` of the state at the call: the generator
+leaves each as a goal `(s : PS) → … → Nat`; it is assigned `fun s _ => lb s` -/
+elab "assign_ghosts" : tactic => do
+  let gs ← Lean.Elab.Tactic.getGoals
+  let mut rest : Array Lean.MVarId := #[]
+  for g in gs do
+    if ← g.isAssigned then continue
+    let t ← Lean.instantiateMVars (← g.getType)
+    let isP ← g.withContext (Lean.Meta.isProp t)
+    if isP then
+      rest := rest.push g
+    else
+      try
+        let (fvs, g') ← g.intros
+        let ok ← g'.withContext do
+          let mut found : Option Lean.FVarId := none
+          for f in fvs do
+            let ty ← Lean.instantiateMVars (← f.getType)
+            if ty.isConstOf ``PS then found := some f
+          match found with
+          | some f => g'.assign (Lean.mkApp (Lean.mkConst ``lb) (Lean.mkFVar f)); pure true
+          | none => pure false
+        if !ok then rest := rest.push g
+      catch _ => rest := rest.push g
+  Lean.Elab.Tactic.setGoals rest.toList
+
+macro "close_pinv" : tactic => `(tactic| (all_goals first
   | grind
-  | ((try simp only [PSInv, noPanic, TokOk, tokIdent, bne_iff_ne, beq_iff_eq, ne_eq, Decidable.not_not, List.isEmpty_iff] at *); grind [StInv_ws]))
+  | ((try simp only [PSInv, noPanic, ErrOk, TokOk, tokIdent, bnd_eq, lb, E_ws, Def.pos, bne_iff_ne, beq_iff_eq, ne_eq, Decidable.not_not,
+      List.isEmpty_iff] at *); grind [StInv_ws])
+  | ((try simp only [PSInv, noPanic, ErrOk, TokOk, tokIdent, bnd_eq, lb, E, bne_iff_ne, beq_iff_eq, ne_eq, Decidable.not_not,
+      List.isEmpty_iff] at *); grind [StInv_ws])))
 
 attribute [local irreducible] bs
 
-@[spec] theorem useWs_ispec (w : Nat) :
-    ⦃fun st => ⌜PSInv st⌝⦄ useWhitespace w ⦃post⟨fun _ st' => ⌜PSInv st'⌝, fun e => ⌜noPanic e⌝⟩⦄ := by
+@[spec] theorem useWs_ispec (w : Nat) (n : Nat) :
+    ⦃fun st => ⌜PSInv st ∧ n ≤ lb st⌝⦄ useWhitespace w
+    ⦃post⟨fun _ st' => ⌜PSInv st' ∧ n ≤ lb st'⌝, fun e => ⌜ErrOk (n) e⌝⟩⦄ := by
   mvcgen [useWhitespace]
   close_pinv
 
-@[spec] theorem nextToken_ispec :
-    ⦃fun st => ⌜PSInv st⌝⦄ nextToken
-    ⦃post⟨fun r st' => ⌜PSInv st' ∧ TokOk r⌝, fun e => ⌜noPanic e⌝⟩⦄ := by
+@[spec] theorem nextToken_ispec (n : Nat) :
+    ⦃fun st => ⌜PSInv st ∧ n ≤ lb st⌝⦄ nextToken
+    ⦃post⟨fun r st' => ⌜PSInv st' ∧ n ≤ lb st' ∧ TokOk r ∧ n ≤ r.pos.offset⌝, fun e => ⌜ErrOk (n) e⌝⟩⦄ := by
   mvcgen [nextToken]
   close_pinv
 
-@[spec] theorem peekToken_ispec :
-    ⦃fun st => ⌜PSInv st⌝⦄ peekToken
-    ⦃post⟨fun r st' => ⌜PSInv st' ∧ TokOk r⌝, fun e => ⌜noPanic e⌝⟩⦄ := by
+@[spec] theorem peekToken_ispec (n : Nat) :
+    ⦃fun st => ⌜PSInv st ∧ n ≤ lb st⌝⦄ peekToken
+    ⦃post⟨fun r st' => ⌜PSInv st' ∧ n ≤ lb st' ∧ TokOk r ∧ n ≤ r.pos.offset ∧ st'.hasLA = true ∧ st'.la = r⌝, fun e => ⌜ErrOk (n) e⌝⟩⦄ := by
   mvcgen [peekToken]
   close_pinv
 
-@[spec] theorem pNextRune_ispec :
-    ⦃fun st => ⌜PSInv st⌝⦄ nextRune
-    ⦃post⟨fun r st' => ⌜PSInv st'⌝, fun e => ⌜noPanic e⌝⟩⦄ := by
+@[spec] theorem pNextRune_ispec (n : Nat) :
+    ⦃fun st => ⌜PSInv st ∧ n ≤ lb st⌝⦄ nextRune
+    ⦃post⟨fun r st' => ⌜PSInv st' ∧ n ≤ lb st'⌝, fun e => ⌜ErrOk (n) e⌝⟩⦄ := by
   mvcgen [nextRune]
   close_pinv
 
-@[spec] theorem pPeekRune_ispec :
-    ⦃fun st => ⌜PSInv st⌝⦄ peekRune
-    ⦃post⟨fun r st' => ⌜PSInv st'⌝, fun e => ⌜noPanic e⌝⟩⦄ := by
+@[spec] theorem pPeekRune_ispec (n : Nat) :
+    ⦃fun st => ⌜PSInv st ∧ n ≤ lb st⌝⦄ peekRune
+    ⦃post⟨fun r st' => ⌜PSInv st' ∧ n ≤ lb st'⌝, fun e => ⌜ErrOk (n) e⌝⟩⦄ := by
   mvcgen [peekRune]
   close_pinv
 
-@[spec] theorem discardLoop_ispec (fuel : Nat) :
-    ⦃fun st => ⌜PSInv st⌝⦄ discardLoop fuel
-    ⦃post⟨fun r st' => ⌜PSInv st'⌝, fun e => ⌜noPanic e⌝⟩⦄ := by
+@[spec] theorem discardLoop_ispec (fuel n : Nat) :
+    ⦃fun st => ⌜PSInv st ∧ n ≤ lb st⌝⦄ discardLoop fuel
+    ⦃post⟨fun r st' => ⌜PSInv st' ∧ n ≤ lb st'⌝, fun e => ⌜ErrOk (n) e⌝⟩⦄ := by
   induction fuel with
-  | zero => exact outOfFuel_ispec _ rfl
+  | zero => exact outOfFuel_ispec _ rfl n
   | succ k ih =>
     mvcgen [discardLoop, ih]
     close_pinv
 
-@[spec] theorem discardLine_ispec (fuel : Nat) :
-    ⦃fun st => ⌜PSInv st⌝⦄ discardLine fuel
-    ⦃post⟨fun r st' => ⌜PSInv st'⌝, fun e => ⌜noPanic e⌝⟩⦄ := by
+@[spec] theorem discardLine_ispec (fuel : Nat) (n : Nat) :
+    ⦃fun st => ⌜PSInv st ∧ n ≤ lb st⌝⦄ discardLine fuel
+    ⦃post⟨fun r st' => ⌜PSInv st' ∧ n ≤ lb st'⌝, fun e => ⌜ErrOk (n) e⌝⟩⦄ := by
   mvcgen [discardLine]
   close_pinv
 
-@[spec] theorem stringLoop_ispec (tokPos : Pos) (acc : List UInt8) (fuel : Nat) :
-    ⦃fun st => ⌜PSInv st⌝⦄ stringLoop tokPos fuel acc
-    ⦃post⟨fun r st' => ⌜PSInv st'⌝, fun e => ⌜noPanic e⌝⟩⦄ := by
+@[spec] theorem stringLoop_ispec (tokPos : Pos) (acc : List UInt8) (fuel n : Nat) (hp : n ≤ tokPos.offset) :
+    ⦃fun st => ⌜PSInv st ∧ n ≤ lb st⌝⦄ stringLoop tokPos fuel acc
+    ⦃post⟨fun r st' => ⌜PSInv st' ∧ n ≤ lb st'⌝, fun e => ⌜ErrOk (n) e⌝⟩⦄ := by
   induction fuel generalizing acc with
-  | zero => exact outOfFuel_ispec _ rfl
+  | zero => exact outOfFuel_ispec _ rfl n
   | succ k ih =>
     mvcgen [stringLoop, ih]
     close_pinv
 
-@[spec] theorem pString_ispec (fuel : Nat) :
-    ⦃fun st => ⌜PSInv st⌝⦄ pString fuel
-    ⦃post⟨fun r st' => ⌜PSInv st'⌝, fun e => ⌜noPanic e⌝⟩⦄ := by
+@[spec] theorem pString_ispec (fuel : Nat) (n : Nat) :
+    ⦃fun st => ⌜PSInv st ∧ n ≤ lb st⌝⦄ pString fuel
+    ⦃post⟨fun r st' => ⌜PSInv st' ∧ n ≤ lb st'⌝, fun e => ⌜ErrOk (n) e⌝⟩⦄ := by
   mvcgen [pString]
   close_pinv
 
-@[spec] theorem identifier_ispec :
-    ⦃fun st => ⌜PSInv st⌝⦄ identifier
-    ⦃post⟨fun r st' => ⌜PSInv st'⌝, fun e => ⌜noPanic e⌝⟩⦄ := by
+@[spec] theorem identifier_ispec (n : Nat) :
+    ⦃fun st => ⌜PSInv st ∧ n ≤ lb st⌝⦄ identifier
+    ⦃post⟨fun r st' => ⌜PSInv st' ∧ n ≤ lb st'⌝, fun e => ⌜ErrOk (n) e⌝⟩⦄ := by
   mvcgen [identifier]
   close_pinv
 
-@[spec] theorem stringIdentifier_ispec (fuel : Nat) :
-    ⦃fun st => ⌜PSInv st⌝⦄ stringIdentifier fuel
-    ⦃post⟨fun r st' => ⌜PSInv st'⌝, fun e => ⌜noPanic e⌝⟩⦄ := by
+@[spec] theorem stringIdentifier_ispec (fuel : Nat) (n : Nat) :
+    ⦃fun st => ⌜PSInv st ∧ n ≤ lb st⌝⦄ stringIdentifier fuel
+    ⦃post⟨fun r st' => ⌜PSInv st' ∧ n ≤ lb st'⌝, fun e => ⌜ErrOk (n) e⌝⟩⦄ := by
   mvcgen [stringIdentifier]
   close_pinv
 
-@[spec] theorem peekKeyword_ispec :
-    ⦃fun st => ⌜PSInv st⌝⦄ peekKeyword
-    ⦃post⟨fun r st' => ⌜PSInv st'⌝, fun e => ⌜noPanic e⌝⟩⦄ := by
+@[spec] theorem peekKeyword_ispec (n : Nat) :
+    ⦃fun st => ⌜PSInv st ∧ n ≤ lb st⌝⦄ peekKeyword
+    ⦃post⟨fun r st' => ⌜PSInv st' ∧ n ≤ lb st'⌝, fun e => ⌜ErrOk (n) e⌝⟩⦄ := by
   mvcgen [peekKeyword]
   close_pinv
 
-@[spec] theorem keyword_ispec (kw : String) :
-    ⦃fun st => ⌜PSInv st⌝⦄ keyword kw
-    ⦃post⟨fun r st' => ⌜PSInv st'⌝, fun e => ⌜noPanic e⌝⟩⦄ := by
+@[spec] theorem keyword_ispec (kw : String) (n : Nat) :
+    ⦃fun st => ⌜PSInv st ∧ n ≤ lb st⌝⦄ keyword kw
+    ⦃post⟨fun r st' => ⌜PSInv st' ∧ n ≤ lb st' ∧ n ≤ r.pos.offset⌝, fun e => ⌜ErrOk (n) e⌝⟩⦄ := by
   mvcgen [keyword]
   close_pinv
 
-@[spec] theorem token_ispec (typ : Int) :
-    ⦃fun st => ⌜PSInv st⌝⦄ token typ
-    ⦃post⟨fun r st' => ⌜PSInv st'⌝, fun e => ⌜noPanic e⌝⟩⦄ := by
+@[spec] theorem token_ispec (typ : Int) (n : Nat) :
+    ⦃fun st => ⌜PSInv st ∧ n ≤ lb st⌝⦄ token typ
+    ⦃post⟨fun r st' => ⌜PSInv st' ∧ n ≤ lb st'⌝, fun e => ⌜ErrOk (n) e⌝⟩⦄ := by
   mvcgen [token]
   close_pinv
 
-@[spec] theorem optionalToken_ispec (typ : Int) :
-    ⦃fun st => ⌜PSInv st⌝⦄ optionalToken typ
-    ⦃post⟨fun r st' => ⌜PSInv st'⌝, fun e => ⌜noPanic e⌝⟩⦄ := by
+@[spec] theorem optionalToken_ispec (typ : Int) (n : Nat) :
+    ⦃fun st => ⌜PSInv st ∧ n ≤ lb st⌝⦄ optionalToken typ
+    ⦃post⟨fun r st' => ⌜PSInv st' ∧ n ≤ lb st'⌝, fun e => ⌜ErrOk (n) e⌝⟩⦄ := by
   mvcgen [optionalToken]
   close_pinv
 
-@[spec] theorem pUint_ispec :
-    ⦃fun st => ⌜PSInv st⌝⦄ pUint
-    ⦃post⟨fun r st' => ⌜PSInv st'⌝, fun e => ⌜noPanic e⌝⟩⦄ := by
+@[spec] theorem pUint_ispec (n : Nat) :
+    ⦃fun st => ⌜PSInv st ∧ n ≤ lb st⌝⦄ pUint
+    ⦃post⟨fun r st' => ⌜PSInv st' ∧ n ≤ lb st'⌝, fun e => ⌜ErrOk (n) e⌝⟩⦄ := by
   mvcgen [pUint]
   close_pinv
 
-@[spec] theorem pFloat_ispec :
-    ⦃fun st => ⌜PSInv st⌝⦄ pFloat
-    ⦃post⟨fun r st' => ⌜PSInv st'⌝, fun e => ⌜noPanic e⌝⟩⦄ := by
+@[spec] theorem pFloat_ispec (n : Nat) :
+    ⦃fun st => ⌜PSInv st ∧ n ≤ lb st⌝⦄ pFloat
+    ⦃post⟨fun r st' => ⌜PSInv st' ∧ n ≤ lb st'⌝, fun e => ⌜ErrOk (n) e⌝⟩⦄ := by
   mvcgen [pFloat]
   close_pinv
 
-@[spec] theorem pInt_ispec :
-    ⦃fun st => ⌜PSInv st⌝⦄ pInt
-    ⦃post⟨fun r st' => ⌜PSInv st'⌝, fun e => ⌜noPanic e⌝⟩⦄ := by
+@[spec] theorem pInt_ispec (n : Nat) :
+    ⦃fun st => ⌜PSInv st ∧ n ≤ lb st⌝⦄ pInt
+    ⦃post⟨fun r st' => ⌜PSInv st' ∧ n ≤ lb st'⌝, fun e => ⌜ErrOk (n) e⌝⟩⦄ := by
   mvcgen [pInt]
   close_pinv
 
-@[spec] theorem optionalUint_ispec :
-    ⦃fun st => ⌜PSInv st⌝⦄ optionalUint
-    ⦃post⟨fun r st' => ⌜PSInv st'⌝, fun e => ⌜noPanic e⌝⟩⦄ := by
+@[spec] theorem optionalUint_ispec (n : Nat) :
+    ⦃fun st => ⌜PSInv st ∧ n ≤ lb st⌝⦄ optionalUint
+    ⦃post⟨fun r st' => ⌜PSInv st' ∧ n ≤ lb st'⌝, fun e => ⌜ErrOk (n) e⌝⟩⦄ := by
   mvcgen [optionalUint]
   close_pinv
 
-@[spec] theorem optionalObjectType_ispec :
-    ⦃fun st => ⌜PSInv st⌝⦄ optionalObjectType
-    ⦃post⟨fun r st' => ⌜PSInv st'⌝, fun e => ⌜noPanic e⌝⟩⦄ := by
+@[spec] theorem optionalObjectType_ispec (n : Nat) :
+    ⦃fun st => ⌜PSInv st ∧ n ≤ lb st⌝⦄ optionalObjectType
+    ⦃post⟨fun r st' => ⌜PSInv st' ∧ n ≤ lb st'⌝, fun e => ⌜ErrOk (n) e⌝⟩⦄ := by
   mvcgen [optionalObjectType]
   close_pinv
 
-@[spec] theorem messageID_ispec :
-    ⦃fun st => ⌜PSInv st⌝⦄ messageID
-    ⦃post⟨fun r st' => ⌜PSInv st'⌝, fun e => ⌜noPanic e⌝⟩⦄ := by
+@[spec] theorem messageID_ispec (n : Nat) :
+    ⦃fun st => ⌜PSInv st ∧ n ≤ lb st⌝⦄ messageID
+    ⦃post⟨fun r st' => ⌜PSInv st' ∧ n ≤ lb st'⌝, fun e => ⌜ErrOk (n) e⌝⟩⦄ := by
   mvcgen [messageID]
   close_pinv
 
-@[spec] theorem signalValueType_ispec :
-    ⦃fun st => ⌜PSInv st⌝⦄ signalValueType
-    ⦃post⟨fun r st' => ⌜PSInv st'⌝, fun e => ⌜noPanic e⌝⟩⦄ := by
+@[spec] theorem signalValueType_ispec (n : Nat) :
+    ⦃fun st => ⌜PSInv st ∧ n ≤ lb st⌝⦄ signalValueType
+    ⦃post⟨fun r st' => ⌜PSInv st' ∧ n ≤ lb st'⌝, fun e => ⌜ErrOk (n) e⌝⟩⦄ := by
   mvcgen [signalValueType]
   close_pinv
 
-@[spec] theorem environmentVariableType_ispec :
-    ⦃fun st => ⌜PSInv st⌝⦄ environmentVariableType
-    ⦃post⟨fun r st' => ⌜PSInv st'⌝, fun e => ⌜noPanic e⌝⟩⦄ := by
+@[spec] theorem environmentVariableType_ispec (n : Nat) :
+    ⦃fun st => ⌜PSInv st ∧ n ≤ lb st⌝⦄ environmentVariableType
+    ⦃post⟨fun r st' => ⌜PSInv st' ∧ n ≤ lb st'⌝, fun e => ⌜ErrOk (n) e⌝⟩⦄ := by
   mvcgen [environmentVariableType]
   close_pinv
 
-@[spec] theorem attributeValueType_ispec :
-    ⦃fun st => ⌜PSInv st⌝⦄ attributeValueType
-    ⦃post⟨fun r st' => ⌜PSInv st'⌝, fun e => ⌜noPanic e⌝⟩⦄ := by
+@[spec] theorem attributeValueType_ispec (n : Nat) :
+    ⦃fun st => ⌜PSInv st ∧ n ≤ lb st⌝⦄ attributeValueType
+    ⦃post⟨fun r st' => ⌜PSInv st' ∧ n ≤ lb st'⌝, fun e => ⌜ErrOk (n) e⌝⟩⦄ := by
   mvcgen [attributeValueType]
   close_pinv
 
-@[spec] theorem accessType_ispec :
-    ⦃fun st => ⌜PSInv st⌝⦄ accessType
-    ⦃post⟨fun r st' => ⌜PSInv st'⌝, fun e => ⌜noPanic e⌝⟩⦄ := by
+@[spec] theorem accessType_ispec (n : Nat) :
+    ⦃fun st => ⌜PSInv st ∧ n ≤ lb st⌝⦄ accessType
+    ⦃post⟨fun r st' => ⌜PSInv st' ∧ n ≤ lb st'⌝, fun e => ⌜ErrOk (n) e⌝⟩⦄ := by
   mvcgen [accessType]
   close_pinv
 
-@[spec] theorem intInRange_ispec (lo hi : Int) :
-    ⦃fun st => ⌜PSInv st⌝⦄ intInRange lo hi
-    ⦃post⟨fun r st' => ⌜PSInv st'⌝, fun e => ⌜noPanic e⌝⟩⦄ := by
+@[spec] theorem intInRange_ispec (lo hi : Int) (n : Nat) :
+    ⦃fun st => ⌜PSInv st ∧ n ≤ lb st⌝⦄ intInRange lo hi
+    ⦃post⟨fun r st' => ⌜PSInv st' ∧ n ≤ lb st'⌝, fun e => ⌜ErrOk (n) e⌝⟩⦄ := by
   mvcgen [intInRange]
   close_pinv
 
-@[spec] theorem anyOf_ispec (ts : List Int) :
-    ⦃fun st => ⌜PSInv st⌝⦄ anyOf ts
-    ⦃post⟨fun r st' => ⌜PSInv st'⌝, fun e => ⌜noPanic e⌝⟩⦄ := by
+@[spec] theorem anyOf_ispec (ts : List Int) (n : Nat) :
+    ⦃fun st => ⌜PSInv st ∧ n ≤ lb st⌝⦄ anyOf ts
+    ⦃post⟨fun r st' => ⌜PSInv st' ∧ n ≤ lb st'⌝, fun e => ⌜ErrOk (n) e⌝⟩⦄ := by
   mvcgen [anyOf]
   close_pinv
 
-@[spec] theorem enumValue_ispec (fuel : Nat) (values : List BStr) :
-    ⦃fun st => ⌜PSInv st⌝⦄ enumValue fuel values
-    ⦃post⟨fun r st' => ⌜PSInv st'⌝, fun e => ⌜noPanic e⌝⟩⦄ := by
+@[spec] theorem enumValue_ispec (fuel : Nat) (values : List BStr) (n : Nat) :
+    ⦃fun st => ⌜PSInv st ∧ n ≤ lb st⌝⦄ enumValue fuel values
+    ⦃post⟨fun r st' => ⌜PSInv st' ∧ n ≤ lb st'⌝, fun e => ⌜ErrOk (n) e⌝⟩⦄ := by
   mvcgen [enumValue]
   close_pinv
 
-@[spec] theorem valueDescription_ispec (fuel : Nat) :
-    ⦃fun st => ⌜PSInv st⌝⦄ valueDescription fuel
-    ⦃post⟨fun r st' => ⌜PSInv st'⌝, fun e => ⌜noPanic e⌝⟩⦄ := by
+@[spec] theorem valueDescription_ispec (fuel : Nat) (n : Nat) :
+    ⦃fun st => ⌜PSInv st ∧ n ≤ lb st⌝⦄ valueDescription fuel
+    ⦃post⟨fun r st' => ⌜PSInv st' ∧ n ≤ lb st'⌝, fun e => ⌜ErrOk (n) e⌝⟩⦄ := by
   mvcgen [valueDescription]
   close_pinv
 
-@[spec] theorem valueDescLoop_ispec (strFuel : Nat) (acc : List ValueDesc) (fuel : Nat) :
-    ⦃fun st => ⌜PSInv st⌝⦄ valueDescLoop strFuel fuel acc
-    ⦃post⟨fun r st' => ⌜PSInv st'⌝, fun e => ⌜noPanic e⌝⟩⦄ := by
+@[spec] theorem valueDescLoop_ispec (strFuel : Nat) (acc : List ValueDesc) (fuel n : Nat) :
+    ⦃fun st => ⌜PSInv st ∧ n ≤ lb st⌝⦄ valueDescLoop strFuel fuel acc
+    ⦃post⟨fun r st' => ⌜PSInv st' ∧ n ≤ lb st'⌝, fun e => ⌜ErrOk (n) e⌝⟩⦄ := by
   induction fuel generalizing acc with
-  | zero => exact outOfFuel_ispec _ rfl
+  | zero => exact outOfFuel_ispec _ rfl n
   | succ k ih =>
     mvcgen [valueDescLoop, ih]
     close_pinv
 
-@[spec] theorem commaIdentLoop_ispec (acc : List BStr) (fuel : Nat) :
-    ⦃fun st => ⌜PSInv st⌝⦄ commaIdentLoop fuel acc
-    ⦃post⟨fun r st' => ⌜PSInv st'⌝, fun e => ⌜noPanic e⌝⟩⦄ := by
+@[spec] theorem commaIdentLoop_ispec (acc : List BStr) (fuel n : Nat) :
+    ⦃fun st => ⌜PSInv st ∧ n ≤ lb st⌝⦄ commaIdentLoop fuel acc
+    ⦃post⟨fun r st' => ⌜PSInv st' ∧ n ≤ lb st'⌝, fun e => ⌜ErrOk (n) e⌝⟩⦄ := by
   induction fuel generalizing acc with
-  | zero => exact outOfFuel_ispec _ rfl
+  | zero => exact outOfFuel_ispec _ rfl n
   | succ k ih =>
     mvcgen [commaIdentLoop, ih]
     close_pinv
 
-@[spec] theorem parseSignal_ispec (fuel : Nat) :
-    ⦃fun st => ⌜PSInv st⌝⦄ parseSignal fuel
-    ⦃post⟨fun r st' => ⌜PSInv st'⌝, fun e => ⌜noPanic e⌝⟩⦄ := by
+@[spec] theorem parseSignal_ispec (fuel : Nat) (n : Nat) :
+    ⦃fun st => ⌜PSInv st ∧ n ≤ lb st⌝⦄ parseSignal fuel
+    ⦃post⟨fun r st' => ⌜PSInv st' ∧ n ≤ lb st' ∧ n ≤ r.pos.offset⌝, fun e => ⌜ErrOk (n) e⌝⟩⦄ := by
   mvcgen [parseSignal]
   close_pinv
 
-@[spec] theorem signalLoop_ispec (strFuel : Nat) (acc : List SignalDef) (fuel : Nat) :
-    ⦃fun st => ⌜PSInv st⌝⦄ signalLoop strFuel fuel acc
-    ⦃post⟨fun r st' => ⌜PSInv st'⌝, fun e => ⌜noPanic e⌝⟩⦄ := by
+@[spec] theorem signalLoop_ispec (strFuel : Nat) (acc : List SignalDef) (fuel n : Nat) :
+    ⦃fun st => ⌜PSInv st ∧ n ≤ lb st⌝⦄ signalLoop strFuel fuel acc
+    ⦃post⟨fun r st' => ⌜PSInv st' ∧ n ≤ lb st'⌝, fun e => ⌜ErrOk (n) e⌝⟩⦄ := by
   induction fuel generalizing acc with
-  | zero => exact outOfFuel_ispec _ rfl
+  | zero => exact outOfFuel_ispec _ rfl n
   | succ k ih =>
     mvcgen [signalLoop, ih]
     close_pinv
 
-@[spec] theorem identWhileLoop_ispec (acc : List BStr) (fuel : Nat) :
-    ⦃fun st => ⌜PSInv st⌝⦄ identWhileLoop fuel acc
-    ⦃post⟨fun r st' => ⌜PSInv st'⌝, fun e => ⌜noPanic e⌝⟩⦄ := by
+@[spec] theorem identWhileLoop_ispec (acc : List BStr) (fuel n : Nat) :
+    ⦃fun st => ⌜PSInv st ∧ n ≤ lb st⌝⦄ identWhileLoop fuel acc
+    ⦃post⟨fun r st' => ⌜PSInv st' ∧ n ≤ lb st'⌝, fun e => ⌜ErrOk (n) e⌝⟩⦄ := by
   induction fuel generalizing acc with
-  | zero => exact outOfFuel_ispec _ rfl
+  | zero => exact outOfFuel_ispec _ rfl n
   | succ k ih =>
     mvcgen [identWhileLoop, ih]
     close_pinv
 
-@[spec] theorem newSymLoop_ispec (acc : List BStr) (fuel : Nat) :
-    ⦃fun st => ⌜PSInv st⌝⦄ newSymLoop fuel acc
-    ⦃post⟨fun r st' => ⌜PSInv st'⌝, fun e => ⌜noPanic e⌝⟩⦄ := by
+@[spec] theorem newSymLoop_ispec (acc : List BStr) (fuel n : Nat) :
+    ⦃fun st => ⌜PSInv st ∧ n ≤ lb st⌝⦄ newSymLoop fuel acc
+    ⦃post⟨fun r st' => ⌜PSInv st' ∧ n ≤ lb st'⌝, fun e => ⌜ErrOk (n) e⌝⟩⦄ := by
   induction fuel generalizing acc with
-  | zero => exact outOfFuel_ispec _ rfl
+  | zero => exact outOfFuel_ispec _ rfl n
   | succ k ih =>
     mvcgen [newSymLoop, ih]
     close_pinv
 
-@[spec] theorem txLoop_ispec (acc : List BStr) (fuel : Nat) :
-    ⦃fun st => ⌜PSInv st⌝⦄ txLoop fuel acc
-    ⦃post⟨fun r st' => ⌜PSInv st'⌝, fun e => ⌜noPanic e⌝⟩⦄ := by
+@[spec] theorem txLoop_ispec (acc : List BStr) (fuel n : Nat) :
+    ⦃fun st => ⌜PSInv st ∧ n ≤ lb st⌝⦄ txLoop fuel acc
+    ⦃post⟨fun r st' => ⌜PSInv st' ∧ n ≤ lb st'⌝, fun e => ⌜ErrOk (n) e⌝⟩⦄ := by
   induction fuel generalizing acc with
-  | zero => exact outOfFuel_ispec _ rfl
+  | zero => exact outOfFuel_ispec _ rfl n
   | succ k ih =>
     mvcgen [txLoop, ih]
     close_pinv
 
-@[spec] theorem commaStringLoop_ispec (strFuel : Nat) (acc : List BStr) (fuel : Nat) :
-    ⦃fun st => ⌜PSInv st⌝⦄ commaStringLoop strFuel fuel acc
-    ⦃post⟨fun r st' => ⌜PSInv st'⌝, fun e => ⌜noPanic e⌝⟩⦄ := by
+@[spec] theorem commaStringLoop_ispec (strFuel : Nat) (acc : List BStr) (fuel n : Nat) :
+    ⦃fun st => ⌜PSInv st ∧ n ≤ lb st⌝⦄ commaStringLoop strFuel fuel acc
+    ⦃post⟨fun r st' => ⌜PSInv st' ∧ n ≤ lb st'⌝, fun e => ⌜ErrOk (n) e⌝⟩⦄ := by
   induction fuel generalizing acc with
-  | zero => exact outOfFuel_ispec _ rfl
+  | zero => exact outOfFuel_ispec _ rfl n
   | succ k ih =>
     mvcgen [commaStringLoop, ih]
     close_pinv
 
-@[spec] theorem attrTypedValue_ispec (defs : Array Def) (fuel : Nat) (name : BStr) :
-    ⦃fun st => ⌜PSInv st⌝⦄ attrTypedValue defs fuel name
-    ⦃post⟨fun r st' => ⌜PSInv st'⌝, fun e => ⌜noPanic e⌝⟩⦄ := by
+@[spec] theorem attrTypedValue_ispec (defs : Array Def) (fuel : Nat) (name : BStr) (n : Nat) :
+    ⦃fun st => ⌜PSInv st ∧ n ≤ lb st⌝⦄ attrTypedValue defs fuel name
+    ⦃post⟨fun r st' => ⌜PSInv st' ∧ n ≤ lb st'⌝, fun e => ⌜ErrOk (n) e⌝⟩⦄ := by
   mvcgen [attrTypedValue]
   close_pinv
 
-@[spec] theorem objRef_ispec (o : ObjType) :
-    ⦃fun st => ⌜PSInv st⌝⦄ objRef o
-    ⦃post⟨fun r st' => ⌜PSInv st'⌝, fun e => ⌜noPanic e⌝⟩⦄ := by
+@[spec] theorem objRef_ispec (o : ObjType) (n : Nat) :
+    ⦃fun st => ⌜PSInv st ∧ n ≤ lb st⌝⦄ objRef o
+    ⦃post⟨fun r st' => ⌜PSInv st' ∧ n ≤ lb st'⌝, fun e => ⌜ErrOk (n) e⌝⟩⦄ := by
   mvcgen [objRef]
   close_pinv
 
-@[spec] theorem parseDef_ispec (defs : Array Def) (fuel : Nat) :
-    ⦃fun st => ⌜PSInv st⌝⦄ parseDef defs fuel
-    ⦃post⟨fun r st' => ⌜PSInv st'⌝, fun e => ⌜noPanic e⌝⟩⦄ := by
+@[spec] theorem parseDef_ispec (defs : Array Def) (fuel : Nat) (n : Nat) :
+    ⦃fun st => ⌜PSInv st ∧ n ≤ lb st⌝⦄ parseDef defs fuel
+    ⦃post⟨fun r st' => ⌜PSInv st' ∧ n ≤ lb st' ∧ n ≤ r.pos.offset⌝, fun e => ⌜ErrOk (n) e⌝⟩⦄ := by
   mvcgen [parseDef]
   close_pinv
 
